@@ -112,6 +112,23 @@ def run_cli(files, main, r):
         # text files are re-read through open() with universal newlines, so only compare when that cannot matter
         if p.returncode != want and not any(c in t for t in files.values() for c in "\r"):
             return ({"kind": "cli-vs-inprocess", "cli": p.returncode, "inproc": want}, p.stderr[-2000:])
+        # the other two entry points: emboss_front_end writing the IR to a file, emboss_codegen_cpp reading it
+        irj = os.path.join(d, "ir.json")
+        try:
+            a = subprocess.run([sys.executable, "-m", "compiler.front_end.emboss_front_end", "--import-dir", d, "--output-file", irj, main], cwd=d, env=env, capture_output=True, text=True, timeout=300)
+            b = None
+            if a.returncode == 0 and os.path.exists(irj):
+                b = subprocess.run([sys.executable, "-m", "compiler.back_end.cpp.emboss_codegen_cpp", "--input-file", irj, "--output-file", os.path.join(d, "two.h")], cwd=d, env=env, capture_output=True, text=True, timeout=300)
+        except subprocess.TimeoutExpired:
+            return ({"kind": "cli-timeout", "program": "front_end|codegen"}, "emboss_front_end | emboss_codegen_cpp did not finish in 300 s")
+        for prog, q in (("emboss_front_end", a), ("emboss_codegen_cpp", b)):
+            if q is None:
+                continue
+            if "Traceback (most recent call last)" in q.stderr:
+                tail = q.stderr.strip().splitlines()[-1]
+                return ({"kind": "cli-traceback", "program": prog, "exc": tail.split(":")[0]}, q.stderr[-3000:])
+            if q.returncode not in (0, 1):
+                return ({"kind": "cli-exit", "program": prog, "code": q.returncode}, q.stderr[-2000:])
         return None
     finally:
         shutil.rmtree(d, ignore_errors=True)
@@ -230,8 +247,18 @@ def boundary_location_family():
     return out
 
 
+# accepted modules that go through all three programs on every run: every kind of constant and
+# expression node the back end has to render from an IR it did not build itself
+CLI_LITERALS = [
+    '[$default byte_order: "LittleEndian"]\nenum Ee:\n  AA = 0\n  BB = 3\nstruct Foo:\n  0 [+1]  UInt  x\n  1 [+1]  bits:\n    0 [+1]  Flag  compressed\n    1 [+7]  UInt  rest\n  if compressed == false:\n    2 [+1]  UInt  y\n  if true:\n    3 [+1]  UInt  z\n  let never = false\n  let always = true\n  let e = Ee.BB\n  let k = 0\n  let big = 18446744073709551615\n  let neg = -9223372036854775808\n  let mixed = (x == 0 && false) || compressed\n  let choice = false ? 1 : 2\n',
+    '[$default byte_order: "BigEndian"]\nstruct Pp(n: UInt:8, flag: UInt:1):\n  0 [+n]  UInt:8[]  xs\n  if flag == 0:\n    n [+1]  UInt  tail\nstruct Foo:\n  0 [+1]  UInt  len\n    [requires: 0 <= this <= 100]\n  1 [+101]  Pp(len, 0)  body\n  let m = $max(len, 3, 0)\n  let p = $present(body)\n  let ub = $upper_bound(len + 1)\n',
+]
+
+
 def shard(idx, seed, n, cli_n, tier):
     stats = vlib.Stats()
+    if idx < len(CLI_LITERALS):
+        evaluate(stats, {"m.emb": CLI_LITERALS[idx]}, "m.emb", "cli-literal", cli=True)
     try:
         from embgen import semgen
 
@@ -302,7 +329,7 @@ def run(ctx):
     ctx.assumptions = [
         "termination judged by a %d s limit per case (normal cost ~0.05 s)" % LIMIT_S,
         "a position (n+1, 1) just past the last line of an n-line file counts as inside the file (end-of-input)",
-        "in-process entry points glue.parse_emboss_file / header_generator.generate_header / error.format_errors; embossc CLI for a sample",
+        "in-process entry points glue.parse_emboss_file / header_generator.generate_header / error.format_errors; embossc, emboss_front_end and emboss_codegen_cpp as programs for a sample",
     ]
     nshards = 16
     per = ctx.pick(260, 3000)
